@@ -494,7 +494,10 @@ impl AssemblyCode {
                                     }
                                 }
                                 AsmMnemonic::BEQ => {
-                                    if *r != i1.dasm_operand && !i2.protected {
+                                    // Different texts are different values only for plain
+                                    // numbers (#<arr may well be 16)
+                                    let plain = |s: &str| s[1..].chars().all(|c| c.is_ascii_digit());
+                                    if *r != i1.dasm_operand && plain(r) && plain(&i1.dasm_operand) && !i2.protected {
                                         remove_both = true;
                                     }
                                 }
@@ -515,7 +518,10 @@ impl AssemblyCode {
                                     }
                                 }
                                 AsmMnemonic::BEQ => {
-                                    if *r != i1.dasm_operand && !i2.protected {
+                                    // Different texts are different values only for plain
+                                    // numbers (#<arr may well be 16)
+                                    let plain = |s: &str| s[1..].chars().all(|c| c.is_ascii_digit());
+                                    if *r != i1.dasm_operand && plain(r) && plain(&i1.dasm_operand) && !i2.protected {
                                         remove_both = true;
                                     }
                                 }
@@ -536,7 +542,10 @@ impl AssemblyCode {
                                     }
                                 }
                                 AsmMnemonic::BEQ => {
-                                    if *r != i1.dasm_operand && !i2.protected {
+                                    // Different texts are different values only for plain
+                                    // numbers (#<arr may well be 16)
+                                    let plain = |s: &str| s[1..].chars().all(|c| c.is_ascii_digit());
+                                    if *r != i1.dasm_operand && plain(r) && plain(&i1.dasm_operand) && !i2.protected {
                                         remove_both = true;
                                     }
                                 }
